@@ -976,7 +976,10 @@ class PluginManager:
         self.__document_pragma_ranges = []
 
         for next_plugin in self.__enabled_plugins_for_starting_new_file:
-            if constraint_id_list and next_plugin.plugin_id not in constraint_id_list:
+            if (
+                constraint_id_list is not None
+                and next_plugin.plugin_id not in constraint_id_list
+            ):
                 continue
             try:
                 next_plugin.plugin_instance.starting_new_file()
